@@ -201,3 +201,16 @@ Example ex_C04_stored_fetch :
     pixels_fetch_stored blocks (Index.pixels_of c) (Index.bin1_offset c) (0%nat, Some 3, Some 6) = Some [((1,3),3)]
   end.
 Proof. vm_compute. repeat split; reflexivity. Qed.
+
+(** the fixed-bin-size branch of _region_to_extent computes [int(np.floor(start / binsize))] and
+    [int(np.ceil(end / binsize))] with float64 true division (core/_rangequery.py:20-23).  For coordinates and bin sizes
+    below 2^53 the correctly rounded binary64 quotient has the same floor / ceiling as the exact quotient
+    (Proofs/FloatDiv.v, Flocq), so the extent the code computes is the model's.  Depends on the standard library's
+    real-number axioms only. *)
+From Cooler Require Import Proofs.FloatDiv Proofs.FloatDivBridge.
+From Flocq Require Import Core.
+Theorem C04_binary64_fixed_extent_exact : forall blocks c s e b,
+  0 <= s < 2^53 -> 0 <= e < 2^53 -> 0 < b < 2^53 ->
+  (chrom_offset blocks c + Zfloor (fdiv s b), chrom_offset blocks c + Zceil (fdiv e b)) = region_to_extent_fixed blocks c s e b.
+Proof. exact binary64_fixed_extent_exact. Qed.
+Print Assumptions C04_binary64_fixed_extent_exact.
